@@ -622,6 +622,50 @@ def codes_check(seed, tier, wd):
     return {"runs": len(recs), "violations": viol}
 
 
+def poll_check(seed, tier, wd):
+    """C20 on the real binary (main.rs + rpc.rs + block_watcher.rs together): the node's chain grows, no block_added
+    notification is delivered, and one poll interval later a payment is initiated: the route delay it grants shows which
+    height the plugin uses.  (Takes a little more than the 60 s poll interval of wall-clock time.)"""
+    build()
+    T = templates()
+    pl = Plugin(options={OPT[k]: v for k, v in dict(DEFAULTS, mpp=5).items()}, height=1000)
+    pl.node.node_id = T["local"]
+    recs = []
+    try:
+        pl.node.pay_mode = "complete:" + T["preimages"][0]
+        if pl.handshake() != "ok":
+            raise run.ToolError("real binary did not start for the poll scenario")
+        grow = 7
+        pl.node.height = 1000 + grow          # no notification is sent
+        time.sleep(64.0)
+        A = T["A"]; need = A + A * 5000 // 10**6
+        margin = 50
+        exp = 1000 + grow + DEFAULTS["sdelta"] + margin
+        pl.send(patched(T["ok"], "A1", 1, need, need, exp, 70000))
+        fr = pl.read_frames(lambda f: any(ok and o.get("id") == "A1" for ok, o in f), 15.0)
+        pays = [c[1] for c in pl.node.calls if c[0] == "pay"]
+        polls = len([c for c in pl.node.calls if c[0] == "getinfo"])
+        delay = pays[0].get("maxdelay", -1) if pays else -1
+        recs.append({"ev": "e2e", "run": 1, "sent": ['"A1"'], "leftover": pl.leftover(), "polls": polls,
+                     "bound": {"what": "maxdelay", "val": delay if delay is not None else -1, "max": margin},
+                     "expect": [{"id": '"A1"', "result": "resolve"}],
+                     "frames": [{"json": ok, "id": json.dumps(o.get("id")) if ok and "id" in o else "none",
+                                 "kind": ("result" if ok and "result" in o else "error" if ok and "error" in o else "notification" if ok and "method" in o else "garbage"),
+                                 "result": (o.get("result", {}).get("result", "") if ok and isinstance(o.get("result"), dict) else "")}
+                                for ok, o in fr if not (ok and o.get("method") == "log")]})
+    finally:
+        pl.close()
+    tf = wd + "/e2e_poll.ndjson"
+    with open(tf, "w") as f:
+        for l in recs:
+            f.write(json.dumps(l) + "\n")
+    rc, out = run.tlc_trace("E2eTrace.tla", "E2eTrace.cfg", tf, wd + "/e2ep")
+    if "No error has been found" not in out:
+        raise run.ToolError("E2eTrace failed:\n" + out[-2000:])
+    viol = [(runno, text, recs[runno - 1]) for runno, text in run.tagged(out, "E2EVIOL")]
+    return {"runs": len(recs), "violations": viol}
+
+
 def lostreply_check(seed, tier, wd):
     """C05 on the real binary (rpc.rs is only compiled there): the reply of the pay command is lost at transport level
     after the node received the request.  The node must not be sent a second pay for that hash."""
